@@ -51,7 +51,7 @@ def gen_value(rng, typ, fmt, probe):
     raise ValueError(typ)
 
 
-TYPES = ['string', 'integer', 'number', 'boolean', 'date', 'time', 'datetime', 'year', 'array', 'object']
+TYPES = ['string', 'integer', 'number', 'boolean', 'date', 'date', 'time', 'datetime', 'datetime', 'year', 'array', 'object']
 NAMES = ['zeta', 'alpha', 'm id', 'Beta', 'y', 'ü', 'k,1', 'q"q', 'b2', 'a1']
 
 
@@ -155,9 +155,17 @@ def one_case(ctx, rng, idx, probe=False):
         for n, t in fields:
             kw = {}
             if tfp and t == 'date':
-                kw['outputFormat'] = '%d/%m/%Y'
+                f_ = rng.choice(['%d/%m/%Y', '%Y%m%d', '%m/%d/%Y', None])
+                if f_:
+                    kw['outputFormat'] = f_
             if tfp and t == 'datetime':
-                kw['outputFormat'] = '%Y%m%dT%H%M%S'
+                f_ = rng.choice(['%Y%m%dT%H%M%S', '%d/%m/%Y %H:%M:%S', None])
+                if f_:
+                    kw['outputFormat'] = f_
+            if tfp and t == 'time':
+                f_ = rng.choice(['%H.%M.%S', None])
+                if f_:
+                    kw['outputFormat'] = f_
             steps.append(DF.set_type(DF.helpers.resource_matcher.re.escape(n) if False else __import__('re').escape(n),
                                      type=t, resources='res_%d' % (i + 1), **kw))
     kw = dict(format=fmt, add_filehash_to_path=filehash)
